@@ -444,6 +444,10 @@ func (g *gen) service(i int) {
 		used[s.Name] = true
 	}
 	s := &Service{Name: g.pickName(used, svcNames)}
+	if i == 0 && g.o.Index%8 == 6 {
+		// a service whose package directory starts like the generator's own temporary directory ("goa…")
+		s.Name = "goals"
+	}
 	if g.r.Intn(3) == 0 {
 		s.Path = "/" + s.Name
 	}
